@@ -63,6 +63,10 @@ def build(doc, flavour, rng):
         elif k == "MOMOP":
             dat.more_option = np.array([0] + [rng.randint(0, 9) for _ in range(21)], np.int8)
             dat.more_option[rng.randint(1, 21)] = 3
+            if rng.random() < 0.3:
+                # a single option set, now and then the last one
+                dat.more_option[:] = 0
+                dat.more_option[rng.choice([21, 21, 1, rng.randint(1, 21)])] = rng.randint(1, 9)
         elif k == "START":
             dat.start = True
         elif k == "NOVER":
@@ -190,14 +194,16 @@ def _d(d, skip=()):
                 and not (isinstance(v, str) and not v.strip()))
 
 
-def canon(dat, binary_mesh=False):
+def canon(dat, binary_mesh=False, sections=None):
     """Abstract content of a t2data object: None == absent key, strings compared stripped, trailing None trimmed,
     objects in SHORT/FOFT/COFT/GOFT compared by the names they resolve to."""
     g = dat.grid
 
     def opt(x):
         return (0.0 if x is None else float(x)) if binary_mesh else _f(x)
-    out = {"title": dat.title.strip(), "simulator": dat.simulator.strip(), "sections": list(dat._sections),
+    # sections: the section list the caller built the object with (the library's own bookkeeping is what is under test)
+    secs = list(dat._sections) if sections is None else list(sections)
+    out = {"title": dat.title.strip(), "simulator": dat.simulator.strip(), "sections": secs,
            "end": dat.end_keyword}
     out["rocks"] = [{"name": r.name, "nad": r.nad or 0, "density": _f(r.density), "porosity": _f(r.porosity),
                      "perm": [_f(x) for x in r.permeability], "cond": _f(r.conductivity), "sh": _f(r.specific_heat),
@@ -210,8 +216,8 @@ def canon(dat, binary_mesh=False):
     out["param"] = {"scalars": _d(p, skip=("option", "timestep", "default_incons", "const_timestep")),
                     "option": [int(x) for x in p["option"]], "const_timestep": _f(p["const_timestep"]),
                     "timestep": [_f(x) for x in p["timestep"]] if p["const_timestep"] < 0 else None,
-                    "default_incons": [_f(x) for x in _trim(p["default_incons"])]} if "PARAM" in dat._sections else None
-    out["momop"] = [int(x) for x in dat.more_option] if "MOMOP" in dat._sections else None
+                    "default_incons": [_f(x) for x in _trim(p["default_incons"])]} if "PARAM" in secs else None
+    out["momop"] = [int(x) for x in dat.more_option] if "MOMOP" in secs else None
     out["start"], out["nover"] = bool(dat.start), bool(dat.noversion)
     out["rpcap"] = ([dat.relative_permeability.get("type"), _trim(dat.relative_permeability.get("parameters", []))],
                     [dat.capillarity.get("type"), _trim(dat.capillarity.get("parameters", []))]) if dat.relative_permeability else None
